@@ -122,7 +122,13 @@ fn io_seek_step(s0: u8, s1: u8, blen: usize, idx: usize) {
     // buffer as left by the previous chunk
     let mut buf = BytesMut::with_capacity(8);
     buf.resize(blen, 0);
-    let mut r = IoChunkReader { state: IoChunkReaderState::Seek, chunks, chunk_index: idx, buf, buf_offset: 0, reader: &mut m };
+    // (constructor + field assignment rather than a struct literal: a field added to the reader by a change of the
+    // code under test must not break the harness)
+    let mut r = IoChunkReader::new(&mut m, chunks);
+    r.state = IoChunkReaderState::Seek;
+    r.chunk_index = idx;
+    r.buf = buf;
+    r.buf_offset = 0;
     let mut cx = noop_cx();
     let res = r.poll_chunk(&mut cx);
     match res {
@@ -199,7 +205,13 @@ fn io_read_step_k(size: u8, bo: usize, kind: u8, idx: usize) {
         }
         j += 1;
     }
-    let mut r = IoChunkReader { state: IoChunkReaderState::Read, chunks, chunk_index: idx, buf, buf_offset: bo, reader: &mut m };
+    // (constructor + field assignment rather than a struct literal: a field added to the reader by a change of the
+    // code under test must not break the harness)
+    let mut r = IoChunkReader::new(&mut m, chunks);
+    r.state = IoChunkReaderState::Read;
+    r.chunk_index = idx;
+    r.buf = buf;
+    r.buf_offset = bo;
     let mut cx = noop_cx();
     let res = r.poll_chunk(&mut cx);
     match res {
@@ -278,7 +290,13 @@ fn c08_io_read_step_s3_b0_last() {
 fn c08_io_end_of_list() {
     let (_o, _s, chunks) = two_chunks();
     let mut m = mock(0, 6);
-    let mut r = IoChunkReader { state: IoChunkReaderState::Seek, chunks, chunk_index: 2, buf: BytesMut::new(), buf_offset: 0, reader: &mut m };
+    // (constructor + field assignment rather than a struct literal: a field added to the reader by a change of the
+    // code under test must not break the harness)
+    let mut r = IoChunkReader::new(&mut m, chunks);
+    r.state = IoChunkReaderState::Seek;
+    r.chunk_index = 2;
+    r.buf = BytesMut::new();
+    r.buf_offset = 0;
     let mut cx = noop_cx();
     assert!(matches!(r.poll_chunk(&mut cx), Poll::Ready(None)));
     assert!(r.reader.reads == 0 && r.reader.seeks == 0);
@@ -299,7 +317,13 @@ fn c08_io_zero_size_range() {
     let mut m = mock(0, 6);
     let mut buf = BytesMut::with_capacity(8);
     buf.resize(prev, 0x77); // what the previous chunk left in the buffer
-    let mut r = IoChunkReader { state: IoChunkReaderState::Seek, chunks, chunk_index: 0, buf, buf_offset: 0, reader: &mut m };
+    // (constructor + field assignment rather than a struct literal: a field added to the reader by a change of the
+    // code under test must not break the harness)
+    let mut r = IoChunkReader::new(&mut m, chunks);
+    r.state = IoChunkReaderState::Seek;
+    r.chunk_index = 0;
+    r.buf = buf;
+    r.buf_offset = 0;
     let mut cx = noop_cx();
     match r.poll_chunk(&mut cx) {
         Poll::Ready(Some(Ok(b))) => {
@@ -354,3 +378,39 @@ fn c08_io_read_at() {
     std::mem::forget(rd);
 }
 
+
+// ---------------------------------------------------------------------------
+// C17 / C08 -- the local reader's ENTRY: `IoChunkReader::new` (what `IoReader::read_chunks` boxes).  The step
+// harnesses above build the reader state directly; this one goes through the constructor with a chunk list in ANY
+// order and checks that the list is taken as given: the first poll seeks to the FIRST LISTED chunk's own offset and
+// asks for exactly its size (item i of the stream is paired with descriptor i by Archive::chunk_stream, so a reader
+// that reorders its list breaks every archive whose chunks are not stored in descriptor order).
+// ---------------------------------------------------------------------------
+fn io_entry(s0: u8, s1: u8) {
+    let (o, s, chunks) = two_chunks_sized(s0, s1);
+    let cur: u64 = kani::any();
+    kani::assume(cur < 24);
+    let mut m = mock(cur, 5); // the first read answers Pending: stop right after the seek
+    let mut r = IoChunkReader::new(&mut m, chunks);
+    let mut cx = noop_cx();
+    let res = r.poll_chunk(&mut cx);
+    assert!(matches!(res, Poll::Pending));
+    assert!(r.reader.seeks == 1 && r.reader.seek_target == o[0], "the first seek goes to the first LISTED chunk");
+    assert!(r.reader.reads == 1 && r.reader.asked == s[0], "and exactly its size is asked for");
+    assert!(r.chunk_index == 0 && r.chunks.len() == 2);
+    assert!(r.chunks[1].offset == o[1] && r.chunks[1].size == s[1], "the rest of the list is untouched");
+    kani::cover!(o[1] < o[0]); // stored in descending order
+    kani::cover!(o[0] + s[0] as u64 == o[1]); // adjacent
+    std::mem::forget(res);
+    std::mem::forget(r);
+}
+#[kani::proof]
+#[kani::unwind(5)]
+fn c17_io_read_chunks_entry_s2_s3() {
+    io_entry(2, 3);
+}
+#[kani::proof]
+#[kani::unwind(5)]
+fn c17_io_read_chunks_entry_s3_s1() {
+    io_entry(3, 1);
+}
